@@ -264,7 +264,7 @@ pub struct AfterCase {
     pub leaf: Value,
 }
 
-fn junk_bytes(j: &Junk) -> Vec<u8> {
+pub fn junk_bytes(j: &Junk) -> Vec<u8> {
     match j {
         Junk::Truncated { value, cut } => {
             let b = refmodel::etf::refenc_canonical(value);
